@@ -564,6 +564,82 @@ def r2(ctx):
 # =========================================================================== R3
 
 
+def _skip_node(g, w):
+    """The construct that decides a witness path `w` which avoids an emission: the last jump
+    (return / continue / break) on it, else the last branch test, else None."""
+    for kinds in (("return", "continue", "break"), ("test",)):
+        for i in reversed(w or []):
+            n = g.nodes[i]
+            if n.kind in kinds and n.ast is not None:
+                return n
+    return None
+
+
+def _skip_site(g, w, default):
+    n = _skip_node(g, w)
+    return n.ast if n is not None and hasattr(n.ast, "lineno") else default
+
+
+def _skip_text(g, w) -> str:
+    n = _skip_node(g, w)
+    return n.text(80) if n is not None else "fall-through"
+
+
+def _awaited_on_every_path(cf, call) -> bool:
+    """`await f(...)`, or `c = f(...)` followed on every normal path by `await c` (c not rebound)."""
+    if awaited(call):
+        return True
+    st = getattr(call, "_parent", None)
+    if not (isinstance(st, ast.Assign) and st.value is call and len(st.targets) == 1 and isinstance(st.targets[0], ast.Name)):
+        return False
+    g = cf.cfg
+    name = st.targets[0].id
+    src = g.ids_of(st)
+    waits = set()
+    for n in g.nodes.values():
+        for x in n.walk():
+            if isinstance(x, ast.Await) and isinstance(x.value, ast.Name) and x.value.id == name:
+                ds = rdefs(cf, name, n.id, use=x.value)
+                if ds and all(d.stmt is st for d in ds):
+                    waits.add(n.id)
+    return bool(src) and bool(waits) and all(g.escape(s, waits, kinds=NORMAL) is None for s in src)
+
+
+def _scatter_callers(ctx, impls):
+    """Every token taken from the input port reaches `_scatter`: at each call site of a `_scatter`
+    implementation the coroutine is awaited and, when the token comes from a `<port>.get(...)` inside a
+    loop, no path leads from that read back to the same read without passing the call (a token that is
+    read and dropped, e.g. `if token.value: await self._scatter(token)`, never gets its size token)."""
+    p = ctx.prog
+    sites = []
+    for f in impls:
+        for cf, call in p.callers(f.qualname):
+            if all(call is not c for _f, c in sites):
+                sites.append((cf, call))
+    ctx.require(bool(sites), "C01.R3: no call of ScatterStep._scatter found (renamed / inlined?): shape not supported")
+    for cf, call in sites:
+        who = ".".join(cf.qualname.rsplit(".", 2)[-2:])
+        g = cf.cfg
+        ctx.ob("R3", f"{who}: `_scatter(...)` is awaited", awaited(call), func=cf, node=call, instance=f"{who}:scatter-awaited",
+               message="`self._scatter(...)` is not awaited: the coroutine is created and dropped, neither elements nor size token are emitted")
+        arg = kwarg(call, "token", 0)
+        cn = g.node_containing(call)
+        ctx.require(arg is not None and bool(cn), f"C01.R3: {cf.qualname}: `_scatter` call shape")
+        reads = []
+        if isinstance(arg, ast.Name):
+            for d in rdefs(cf, arg.id, cn[0], use=arg):
+                if d.kind in ("assign", "walrus") and d.index is None and d.nid is not None and method_call(strip_await(d.value), "get") is not None:
+                    reads.append(d.nid)
+        if not reads:
+            ctx.observe(f"C01.R3: {cf.qualname}: the argument of _scatter is not a local read with `<port>.get(...)`; drop paths not checked")
+            continue
+        for rid in sorted(set(reads)):
+            w = g.path(rid, [rid], avoid=cn, kinds=NORMAL)
+            ctx.ob("R3", f"{who}: every token read from the port is scattered before the next one is read", w is None, func=cf,
+                   node=_skip_site(g, w, call), instance=f"{who}:scatter-every-token", witness=g.describe(w) if w else [],
+                   message=f"`{_skip_text(g, w)}` lets a token be read and dropped without `_scatter`: no size token is emitted for it (its list is lost)")
+
+
 def r3(ctx):
     p = ctx.prog
     require_members(ctx, SCATTER, ["_scatter", "get_output_port", "get_size_port", "_persist_token"])
@@ -634,8 +710,27 @@ def r3(ctx):
             ctx.ob("R3", f"{who}._scatter: elements are put on the output port inside the loop",
                    sc is not None and not sc.args and not sc.keywords and in_subtree(put, loop) and persist_awaited((put, recv, tok, persist)), func=f, node=put,
                    instance=f"{who}._scatter:elem-port", message=f"elements are put on `{unparse(ro) if ro is not None else unparse(recv)}`" + ("" if in_subtree(put, loop) else " outside the loop"))
+        # every element of the loop is emitted: no path through the loop body reaches the next iteration (continue)
+        # or leaves the loop (break / return) without passing an element put
+        g = f.cfg
+        elem_nodes = {i for (e, _k) in elem for i in g.node_containing(e[0]) if in_subtree(e[0], loop)}
+        for hid in g.ids_of(loop):
+            for s in (branch_succ(g, hid, "t") if elem_nodes else []):
+                w = None if s in elem_nodes else g.escape(s, elem_nodes, targets=[hid, g.exit], kinds=NORMAL)
+                ctx.ob("R3", f"{who}._scatter: every iteration of the loop emits its element", w is None, func=f, node=_skip_site(g, w, loop),
+                       instance=f"{who}._scatter:elem-path", witness=g.describe(w) if w else [],
+                       message=f"`{_skip_text(g, w)}` lets an iteration end without emitting its element: the gathered list is shorter than the original")
         ctx.ob("R3", f"{who}._scatter: exactly one size token is emitted", len(size) == 1, func=f, node=f.node,
                instance=f"{who}._scatter:size-count", message=f"{len(size)} size-token emissions found (gather never learns the list length)" if not size else f"{len(size)} size-token emissions found")
+        # the size token is emitted for EVERY list, the empty one included: no normal completion of _scatter
+        # (fall off the end / return; the `raise` for non-list input is not a normal completion) avoids the size put
+        size_nodes = {i for (e, _c) in size for i in g.node_containing(e[0])}
+        if size_nodes:
+            w = g.escape(g.entry, size_nodes, kinds=NORMAL)
+            ctx.ob("R3", f"{who}._scatter: every normal completion has emitted the size token (whatever the list length)", w is None, func=f,
+                   node=_skip_site(g, w, f.node), instance=f"{who}._scatter:size-path", witness=g.describe(w) if w else [],
+                   message=f"`{_skip_text(g, w)}` lets _scatter complete without emitting the size token: the gather step never learns about "
+                           f"that list (an empty list is lost; in a nested scatter it disappears from the outer list)")
         for (put, recv, tok, persist), ctor in size:
             nid = nid_of(f, put)
             val = kwarg(ctor, "value", 0)
@@ -654,6 +749,7 @@ def r3(ctx):
             ctx.ob("R3", f"{who}._scatter: the size token is put once on the size port (outside the loop)",
                    port_ok and not in_subtree(put, loop) and persist_awaited((put, recv, tok, persist)), func=f, node=put, instance=f"{who}._scatter:size-port",
                    message=("size token is emitted inside the element loop" if in_subtree(put, loop) else f"size token is put on `{unparse(ro) if ro is not None else unparse(recv)}`"))
+    _scatter_callers(ctx, impls)
 
 
 # =========================================================================== R4
@@ -986,6 +1082,9 @@ FLOORS = {"R1": 5, "R2": 4, "R3": 4, "R4": 14}
 _G = f"{GATHER}._gather"
 _S = f"{SCATTER}._scatter"
 _R = f"{GATHER}.run"
+_SR = f"{SCATTER}.run"
+_ELEM_PUT = "await self._persist_token(token=t.retag(token.tag + '.' + str(i)), port=output_port, input_token_ids=get_entity_ids([token]))"
+_SIZE_PUT = "await self._persist_token(token=Token(len(token.value), tag=token.tag, recoverable=True), port=size_port, input_token_ids=get_entity_ids([token]))"
 
 VARIANTS = [
     # ---- R1
@@ -1019,6 +1118,24 @@ VARIANTS = [
     V("_scatter size emitted inside the loop", SFILE, _S,
       "\n        size_port = self.get_size_port()\n        size_port.put(await self._persist_token(token=Token(len(token.value), tag=token.tag, recoverable=True), port=size_port, input_token_ids=get_entity_ids([token])))",
       "\n            size_port = self.get_size_port()\n            size_port.put(await self._persist_token(token=Token(len(token.value), tag=token.tag, recoverable=True), port=size_port, input_token_ids=get_entity_ids([token])))", "R3"),
+    V("_scatter returns early on an empty list, before the size token (seeded C01-3)", SFILE, _S,
+      "        output_port = self.get_output_port()\n        for i, t in enumerate(token.value):",
+      "        if len(token.value) == 0:\n            return\n        output_port = self.get_output_port()\n        for i, t in enumerate(token.value):", "R3", control=True),
+    V("_scatter emits the size token only for non-empty lists", SFILE, _S,
+      "        size_port = self.get_size_port()\n        size_port.put(" + _SIZE_PUT + ")",
+      "        if token.value:\n            size_port = self.get_size_port()\n            size_port.put(" + _SIZE_PUT + ")", "R3"),
+    V("_scatter: guard clause returns silently for empty input before anything is emitted", SFILE, _S,
+      "    if isinstance(token, ListToken):\n        output_port",
+      "    if not token.value:\n        logger.debug('nothing to scatter')\n        return None\n    if isinstance(token, ListToken):\n        output_port", "R3"),
+    V("_scatter skips some elements (continue before the put)", SFILE, _S,
+      "        for i, t in enumerate(token.value):\n            output_port.put(",
+      "        for i, t in enumerate(token.value):\n            if t.value is None:\n                continue\n            output_port.put(", "R3"),
+    V("_scatter stops at the first empty element (break before the put)", SFILE, _S,
+      "        for i, t in enumerate(token.value):\n            output_port.put(",
+      "        for i, t in enumerate(token.value):\n            if not t.value:\n                break\n            output_port.put(", "R3"),
+    V("ScatterStep.run drops empty lists instead of scattering them", SFILE, _SR,
+      "            await self._scatter(token)", "            if token.value:\n                await self._scatter(token)", "R3"),
+    V("ScatterStep.run does not await _scatter", SFILE, _SR, "            await self._scatter(token)", "            self._scatter(token)", "R3"),
     # ---- R4
     V("run: == -> >= in the size branch", SFILE, _R, "len(self.token_map.setdefault(token.tag, [])) == token.value", "len(self.token_map.setdefault(token.tag, [])) >= token.value", "R4", control=True),
     V("run: forced gather deleted", SFILE, _R,
@@ -1040,6 +1157,15 @@ VARIANTS = [
       "                unfinished.add(asyncio.create_task(port.get(posixpath.join(self.name, task_name)), name=task_name))",
       "                if token.tag in keys_completed:\n                    unfinished.add(asyncio.create_task(port.get(posixpath.join(self.name, task_name)), name=task_name))", "R4"),
     # ---- benign
+    V("benign: _scatter emits the size token first, then returns early on an empty list", SFILE, _S,
+      "        output_port = self.get_output_port()\n        for i, t in enumerate(token.value):\n            output_port.put(" + _ELEM_PUT + ")\n        size_port = self.get_size_port()\n        size_port.put(" + _SIZE_PUT + ")",
+      "        size_port = self.get_size_port()\n        size_port.put(" + _SIZE_PUT + ")\n        if len(token.value) == 0:\n            return\n        output_port = self.get_output_port()\n        for i, t in enumerate(token.value):\n            output_port.put(" + _ELEM_PUT + ")", None),
+    V("benign: _scatter with an inverted guard clause (raise first, body unindented)", SFILE, _S,
+      "    if isinstance(token, ListToken):\n        output_port = self.get_output_port()\n        for i, t in enumerate(token.value):\n            output_port.put(" + _ELEM_PUT + ")\n        size_port = self.get_size_port()\n        size_port.put(" + _SIZE_PUT + ")\n    else:\n        raise WorkflowDefinitionException('Scatter ports require iterable inputs')",
+      "    if not isinstance(token, ListToken):\n        raise WorkflowDefinitionException('Scatter ports require iterable inputs')\n    output_port = self.get_output_port()\n    n_items = len(token.value)\n    if n_items == 0:\n        logger.debug('empty list')\n    for i, t in enumerate(token.value):\n        output_port.put(" + _ELEM_PUT + ")\n    size_port = self.get_size_port()\n    size_port.put(" + _SIZE_PUT.replace("Token(len(token.value),", "Token(n_items,") + ")\n    return None", None),
+    V("benign: ScatterStep.run without else, logging, walrus-free temporaries", SFILE, _SR,
+      "        if isinstance(token, TerminationToken):\n            status = token.value\n            break\n        else:\n            await self._scatter(token)",
+      "        if isinstance(token, TerminationToken):\n            status = token.value\n            break\n        if isinstance(token, ListToken) and (not token.value):\n            logger.debug('empty list')\n        pending = self._scatter(token)\n        await pending", None),
     V("benign: rename lambda params", SFILE, _G, "lambda x, y: compare_tags(x.tag, y.tag)", "lambda a, b: compare_tags(a.tag, b.tag)", None),
     V("benign: hoist sorted(...) into a local", SFILE, _G,
       "    output_port = self.get_output_port()\n    output_port.put(await self._persist_token(token=ListToken(tag=key, value=sorted(self.token_map[key], key=cmp_to_key(lambda x, y: compare_tags(x.tag, y.tag)))),",
